@@ -195,12 +195,18 @@ func (b Bytes) ParseUint() (uint, error) {
 		return 0, errs.ErrNotEnoughDataInParseUint.F()
 	}
 
+	const cutoff = math.MaxUint / 10
+
 	var u uint
 	for _, c := range b.data {
 		if !IsDigit(c) {
 			return 0, errs.ErrInvalidByteInParseUint.F(string(c), b)
 		}
-		u = u*10 + uint(c-'0')
+		d := uint(c - '0')
+		if u > cutoff || (u == cutoff && d > math.MaxUint%10) {
+			return 0, errs.ErrTooMuchDataForInt.F()
+		}
+		u = u*10 + d
 	}
 	return u, nil
 }
